@@ -15,7 +15,7 @@ from gen_objtables import (KEEP, ERRNAME, DEV_PIDS, code, cid, classes, atom_cod
                            q_opt, q_elem, q_sdt, q_dt, q_bool, pid_num, _CODES, _CIDS)
 
 PROP = 'C15'
-COQ_TARGETS = ['theories/ObjFacts.vo', 'theories/ObjRw.vo', 'theories/ObjRpm.vo', 'gen/ObjTables.vo', 'theories/ObjTablesFacts.vo', 'gen/Schemas.vo', 'theories/ObjCodec.vo']
+COQ_TARGETS = ['theories/ObjFacts.vo', 'theories/ObjRw.vo', 'theories/ObjRpm.vo', 'theories/ObjWire.vo', 'gen/ObjTables.vo', 'theories/ObjTablesFacts.vo', 'gen/Schemas.vo', 'theories/ObjCodec.vo']
 TABLE_OBLIGATIONS = ['all_tables_ok']
 COQ_IMPORTS = ('From Bac Require Import Base Tag Schema Codec Obj ObjCodec.\nFrom BacGen Require Import Schemas ObjTables.\n'
                'Import Obj.')
@@ -351,7 +351,31 @@ def arr_len(v):
         return 0
 
 
-def pick_index(rng, obj, prop):
+# ---- the array index as it travels: an OPTIONAL context-tagged Unsigned.  The library's encoder sends 0 .. 2^32-1 in
+# the fewest octets; a peer may pad with zero octets or send more than four.  Index classes beyond "n+1": the values next
+# to every octet-count boundary, the all-ones values of 1..8 octets (0xFF, 0xFFFF, 0xFFFFFFFF, ...: "all elements" /
+# "no index" markers of other stacks), the sign-bit values 2^31-1 / 2^31, and uniformly random values of 1..40 bits.
+U32 = 0xFFFFFFFF
+INDEX_BOUNDS = sorted(set([2 ** k - 1 for k in (7, 8, 15, 16, 23, 24, 31, 32, 40, 63, 64)] +
+                          [2 ** k for k in (7, 8, 15, 16, 23, 24, 31, 32, 40, 63)] + [2 ** 32 - 2, 4194303, 4194304]))
+
+
+def huge_index(rng, n=0, wide=True):
+    r = rng.random()
+    if r < 0.2:
+        return n + rng.choice([2, 7])
+    if r < 0.75:
+        i = rng.choice(INDEX_BOUNDS)
+    else:
+        i = rng.getrandbits(rng.randint(1, 40))
+    if not wide and i > U32:
+        i = rng.choice([U32, U32 - 1, 2 ** 31, 2 ** 31 - 1, 65535, 65536, 255, 256])
+    return max(i, n + 1)
+
+
+def pick_index_legacy(rng, obj, prop):
+    """the index generator of the earlier rounds (none/0/1..n/n+1/a few large values): the random correspondence
+    histories keep it, so that their request streams stay those the earlier rounds verified"""
     C = B()['C']
     if prop is None or not issubclass(prop.datatype, C.Array):
         return None if rng.random() < 0.85 else rng.choice([0, 1, 2])
@@ -363,6 +387,129 @@ def pick_index(rng, obj, prop):
     if r < 0.8 and n >= 1: return rng.randint(1, n)
     if r < 0.9: return n + 1
     return rng.choice([n + 2, n + 7, 255, 65536, 4194303])
+
+
+def pick_index(rng, obj, prop, wide=True):
+    """None or the index VALUE; wide=False keeps it within what the library's encoder can send (0..2^32-1)"""
+    C = B()['C']
+    if prop is None or not issubclass(prop.datatype, C.Array):
+        r = rng.random()
+        if r < 0.8: return None
+        if r < 0.9: return rng.choice([0, 1, 2])
+        return huge_index(rng, 0, wide)
+    v = obj._values.get(prop.identifier)
+    n = arr_len(v)
+    r = rng.random()
+    if r < 0.25: return None
+    if r < 0.45: return 0
+    if r < 0.78 and n >= 1: return rng.randint(1, n)
+    if r < 0.86: return n + 1
+    return huge_index(rng, n, wide)
+
+
+def be_octets(i):
+    out = []
+    while True:
+        out.insert(0, i & 255)
+        i >>= 8
+        if not i:
+            return out
+
+
+def pick_raw(rng, idx):
+    """how the index element is spelled: None = by the library's encoder; else its data octets (zero-padded, more than four
+    octets, or - rarely - no octets at all, which no decoder may take for an index)"""
+    if idx is None:
+        return None
+    if idx > U32:
+        return be_octets(idx)
+    r = rng.random()
+    if r < 0.80:
+        return None
+    if r < 0.97:
+        o = be_octets(idx)
+        return [0] * rng.choice([1, 1, 2, 3, 4, 8 - len(o)]) + o
+    return []
+
+
+_RAWCLS = {}
+
+
+def raw_request_class(base):
+    """a request class whose propertyArrayIndex element (context 2) is sent with the data octets given in .raw_index"""
+    if base not in _RAWCLS:
+        e = B()
+        P, C = e['P'], e['C']
+
+        class Raw(base):
+            raw_index = None
+
+            def encode(self, apdu):
+                apdu.update(self)
+                tl = P.TagList()
+                C.Sequence.encode(self, tl)
+                t = tl.tagList[2]
+                assert t.tagClass == P.Tag.contextTagClass and t.tagNumber == 2
+                t.set(P.Tag.contextTagClass, 2, len(self.raw_index), bytearray(self.raw_index))
+                self._tag_list = tl
+                tl.encode(apdu)
+        Raw.__name__ = 'Raw' + base.__name__
+        _RAWCLS[base] = Raw
+    return _RAWCLS[base]
+
+
+def mk_request(base, oid, pid, idx, raw=None):
+    """ReadPropertyRequest / WritePropertyRequest with index value idx, spelled by the encoder or as the octets `raw`"""
+    if raw is None and idx is not None and idx > U32:
+        raw = be_octets(idx)
+    if raw is None:
+        req = base(objectIdentifier=oid, propertyIdentifier=pid)
+        if idx is not None:
+            req.propertyArrayIndex = idx
+        return req
+    req = raw_request_class(base)(objectIdentifier=oid, propertyIdentifier=pid)
+    req.propertyArrayIndex = 1          # placeholder: the element is re-written by encode()
+    req.raw_index = list(raw)
+    return req
+
+
+def wire_index_of(req):
+    """data octets of the propertyArrayIndex element of a ReadProperty / WriteProperty request AS ENCODED, None if absent"""
+    e = B()
+    P, A = e['P'], e['A']
+    req.encode(A.ConfirmedRequestPDU())
+    tl = req._tag_list.tagList
+    if len(tl) >= 3 and tl[2].tagClass == P.Tag.contextTagClass and tl[2].tagNumber == 2:
+        return list(tl[2].tagData)
+    return None
+
+
+def wire_indexes_of_rpm(req):
+    """per read access specification the index octets (or None) of each property reference, as encoded"""
+    e = B()
+    P, A = e['P'], e['A']
+    req.encode(A.ConfirmedRequestPDU())
+    tl = req._tag_list.tagList
+    out, i = [], 0
+    while i < len(tl):
+        assert tl[i].tagClass == P.Tag.contextTagClass and tl[i].tagNumber == 0
+        assert tl[i + 1].tagClass == P.Tag.openingTagClass and tl[i + 1].tagNumber == 1
+        i += 2
+        refs = []
+        while tl[i].tagClass != P.Tag.closingTagClass:
+            if tl[i].tagClass == P.Tag.contextTagClass and tl[i].tagNumber == 0:
+                refs.append(None)
+            else:
+                assert tl[i].tagClass == P.Tag.contextTagClass and tl[i].tagNumber == 1 and refs and refs[-1] is None
+                refs[-1] = list(tl[i].tagData)
+            i += 1
+        i += 1
+        out.append(refs)
+    return out
+
+
+def q_octs(o):
+    return 'None' if o is None else '(Some [%s])' % ';'.join('%d' % x for x in o)
 
 
 def pick_target(rng, bench):
@@ -623,9 +770,57 @@ def q_refs(specs):
                          for oid, refs in specs) + ']'
 
 
-def gen_op(rng, bench):
-    """-> (apdu, coq text of the op, description dict)"""
+def q_wire_refs(specs, octs):
+    return '[' + ';'.join('(%d, [%s])' % (oid_num(oid), ';'.join('(%d, %s)' % (pid_num(p), q_octs(o)) for (p, _), o in zip(refs, os_)))
+                         for (oid, refs), os_ in zip(specs, octs)) + ']'
+
+
+def rpm_request(specs):
     A = B()['A']
+    return A.ReadPropertyMultipleRequest(listOfReadAccessSpecs=[
+        A.ReadAccessSpecification(objectIdentifier=oid, listOfPropertyReferences=[
+            A.PropertyReference(propertyIdentifier=p, propertyArrayIndex=i) for p, i in refs]) for oid, refs in specs])
+
+
+def read_op(oid, pid, idx, raw=None):
+    """-> (apdu, coq text of the event, description): the model is given the index as the octets found in the encoded request"""
+    A = B()['A']
+    req = mk_request(A.ReadPropertyRequest, oid, pid, idx, raw)
+    octs = wire_index_of(req)
+    d = {'op': 'read', 'oid': list(oid), 'pid': pid, 'idx': idx, 'octets': octs}
+    if octs == []:
+        d.update(idx=None, malformed=True)
+    return req, '(EWire (WRead %d %d %s))' % (oid_num(oid), pid_num(pid), q_octs(octs)), d
+
+
+def write_op(oid, obj, pid, idx, raw, prio, any_, label, wrong):
+    A = B()['A']
+    req = mk_request(A.WritePropertyRequest, oid, pid, idx, raw)
+    req.propertyValue = any_
+    if prio is not None:
+        req.priority = prio
+    octs = wire_index_of(req)
+    q = '(EWire (WWrite %d %d %s %s %s))' % (oid_num(oid), pid_num(pid), q_octs(octs), q_opt(prio), abs_wire(any_, obj, pid))
+    d = {'op': 'write', 'oid': list(oid), 'pid': pid, 'idx': idx, 'octets': octs, 'prio': prio, 'value': label, 'wrong': wrong,
+         'tags': [list(t) for t in valgen.canon_tags(any_.tagList.tagList)]}
+    if octs == []:
+        d.update(idx=None, malformed=True)
+    return req, q, d
+
+
+def rpm_op(specs):
+    req = rpm_request(specs)
+    octs = wire_indexes_of_rpm(req)
+    return req, '(EWire (WRpm %s))' % q_wire_refs(specs, octs), {'op': 'rpm', 'specs': [[list(oid), [list(x) for x in refs]] for oid, refs in specs]}
+
+
+def gen_op(rng, bench, legacy=False):
+    """-> (apdu, coq text of the event, description dict)"""
+    if legacy:
+        pick_index = lambda rng, obj, prop, wide=True: pick_index_legacy(rng, obj, prop)
+        pick_raw = lambda rng, idx: None
+    else:
+        pick_index, pick_raw = globals()['pick_index'], globals()['pick_raw']
     r = rng.random()
     if r < 0.33:
         oid, obj = pick_target(rng, bench)
@@ -633,10 +828,7 @@ def gen_op(rng, bench):
             oid, obj = ('device', 4194303), bench.dev.localDevice
         pid, prop = pick_property(rng, obj, bench)
         idx = pick_index(rng, obj, prop)
-        req = A.ReadPropertyRequest(objectIdentifier=oid, propertyIdentifier=pid)
-        if idx is not None:
-            req.propertyArrayIndex = idx
-        return req, '(ORead %d %d %s)' % (oid_num(oid), pid_num(pid), q_opt(idx)), {'op': 'read', 'oid': list(oid), 'pid': pid, 'idx': idx}
+        return read_op(oid, pid, idx, pick_raw(rng, idx))
     if r < 0.80:
         oid, obj = pick_target(rng, bench)
         if rng.random() < 0.02:
@@ -648,15 +840,7 @@ def gen_op(rng, bench):
             idx = None
         any_, label, wrong = gen_write_value(rng, bench, obj, prop, idx)
         prio = rng.choice([None, None, 1, 8, 16, rng.randint(1, 16)])
-        req = A.WritePropertyRequest(objectIdentifier=oid, propertyIdentifier=pid)
-        req.propertyValue = any_
-        if idx is not None:
-            req.propertyArrayIndex = idx
-        if prio is not None:
-            req.priority = prio
-        q = '(OWrite %d %d %s %s %s)' % (oid_num(oid), pid_num(pid), q_opt(idx), q_opt(prio), abs_wire(any_, obj, pid))
-        return req, q, {'op': 'write', 'oid': list(oid), 'pid': pid, 'idx': idx, 'prio': prio, 'value': label, 'wrong': wrong,
-                        'tags': [list(t) for t in valgen.canon_tags(any_.tagList.tagList)]}
+        return write_op(oid, obj, pid, idx, pick_raw(rng, idx), prio, any_, label, wrong)
     specs = []
     for _ in range(rng.randint(1, 3)):
         oid, obj = pick_target(rng, bench)
@@ -668,12 +852,9 @@ def gen_op(rng, bench):
                 refs.append((rng.choice(['all', 'required', 'optional']), None if rng.random() < 0.85 else rng.choice([0, 1, 2])))
             else:
                 pid, prop = pick_property(rng, obj, bench)
-                refs.append((pid, pick_index(rng, obj, prop)))
+                refs.append((pid, pick_index(rng, obj, prop, wide=False)))
         specs.append((oid, refs))
-    req = A.ReadPropertyMultipleRequest(listOfReadAccessSpecs=[
-        A.ReadAccessSpecification(objectIdentifier=oid, listOfPropertyReferences=[
-            A.PropertyReference(propertyIdentifier=p, propertyArrayIndex=i) for p, i in refs]) for oid, refs in specs])
-    return req, '(ORpm %s)' % q_refs(specs), {'op': 'rpm', 'specs': [[list(oid), [list(x) for x in refs]] for oid, refs in specs]}
+    return rpm_op(specs)
 
 
 def digest(l):
@@ -730,6 +911,69 @@ def bitstring_array_ops(bn):
     yield req, '(ORpm %s)' % q_refs(specs), {'op': 'rpm', 'specs': [[list(o), [list(x) for x in refs]] for o, refs in specs]}
 
 
+def index_sweep_setup(variant):
+    """a load control object (array of unsigned, array of strings, scalars) as registered (variant 1) or all-mutable
+    (variant 0), next to a second object with a list property"""
+    def setup(bn):
+        import random
+        e = B()
+        P, C = e['P'], e['C']
+        bn.clear()
+        cls, M = classes()['loadControl']
+        K = cls if variant else M
+        bn.add(K(objectIdentifier=('loadControl', 10), objectName='loadControl-10',
+                 shedLevels=K._properties['shedLevels'].datatype([10, 20, 30]),
+                 shedLevelDescriptions=K._properties['shedLevelDescriptions'].datatype(['a', 'bb']),
+                 shedDuration=5, dutyWindow=6, enable=True))
+        r = random.Random(4242 + variant)
+        bn.add(build_object(r, 'notificationClass' if variant else 'analogValue', 11, mutable=not variant, fill=0.7))
+    return setup
+
+
+def index_sweep_ops(variant):
+    """every index class of the index family - n+1, the octet-count boundaries, the all-ones markers, the sign-bit values,
+    more than four octets, zero-padded spellings of 0 / 1 / n / n+1 / 2^32-1 - against arrays, scalars and lists:
+    ReadProperty, WriteProperty (a right-typed element, and a right-typed whole value) and ReadPropertyMultiple"""
+    def ops(bn):
+        import random
+        C = B()['C']
+        r = random.Random(777 + variant)
+        for obj in list(bn.objects):
+            oid = obj.objectIdentifier
+            chosen, count = [], {}
+            for pid in sorted(obj._properties):
+                p = obj._properties[pid]
+                if obj._values.get(pid) is None or pid in KEEP or pid == 'objectIdentifier':
+                    continue
+                k = 'array' if issubclass(p.datatype, C.Array) else 'list' if issubclass(p.datatype, C.List) else 'scalar'
+                if count.get(k, 0) < (2 if k != 'list' else 1):
+                    count[k] = count.get(k, 0) + 1
+                    chosen.append((pid, p, k))
+            for pid, p, k in chosen:
+                n = arr_len(obj._values.get(pid)) if k == 'array' else 0
+                sweep = [(i, None) for i in sorted(set([n + 1] + INDEX_BOUNDS))]
+                sweep += [(i, [0] * z + be_octets(i)) for i, z in ((0, 3), (1, 3), (n, 1), (n + 1, 4), (U32, 1), (U32, 4), (255, 7))]
+                other = [q for q, _, _ in chosen if q != pid][:1]
+                for i, raw in sweep:
+                    if raw is None and i > U32:
+                        raw = be_octets(i)
+                    yield read_op(oid, pid, i, raw)
+                    any_, label, wrong = gen_write_value(r, bn, obj, p, i)
+                    yield write_op(oid, obj, pid, i, raw, r.choice([None, 8]), any_, label, wrong)
+                    if k == 'array' and i > n:
+                        # the whole (right-typed) value sent with an index that designates nothing
+                        any_, label, wrong = gen_write_value(r, bn, obj, p, None)
+                        yield write_op(oid, obj, pid, i, raw, None, any_, label + '-whole', True)
+                    if i <= U32:
+                        yield rpm_op([(oid, [(pid, i)] + [(q, i) for q in other] + [(pid, None)])])
+    return ops
+
+
+def index_sweep_direct(failures, stats):
+    for variant in (0, 1):
+        run_direct_history(0, failures, stats, scenario=('index-sweep-%d' % variant, index_sweep_setup(variant), index_sweep_ops(variant)))
+
+
 def history_case(rng, nops=None, scenario=None):
     bn = bench()
     if scenario is None:
@@ -769,13 +1013,13 @@ def history_case(rng, nops=None, scenario=None):
                 expected += [6]
                 descs.append({'op': 'delete_object', 'oid': list(o.objectIdentifier), 'reply': [6]})
                 continue
-            req, q, d = gen_op(rng, bn)
+            req, q, d = gen_op(rng, bn, legacy=True)
         io, errs = bn.exchange(req)
         rep = c_reply(bn, io)
         acks += (rep == [0])
         refusals += (rep[0] in (2, 3, 4))
         expected += rep
-        qops.append('(EReq %s)' % q)
+        qops.append(q if q.startswith('(EWire') else '(EReq %s)' % q)
         d['reply'] = rep[:12]
         descs.append(d)
     full = bn.c_device()
@@ -796,8 +1040,10 @@ def cases(rng, tier):
         raise RuntimeError(TABLE_TEXT_DIFFERS[0])
     n = 2400 if tier == 'thorough' else 400
     out = [history_case(rng, nops=20, scenario=(bitstring_array_scenario, bitstring_array_ops)),
-           history_case(rng, nops=60, scenario=(rpm_index0_setup, rpm_index0_ops))]
-    out += [history_case(rng) for _ in range(n - 2)]
+           history_case(rng, nops=60, scenario=(rpm_index0_setup, rpm_index0_ops)),
+           history_case(rng, nops=5000, scenario=(index_sweep_setup(0), index_sweep_ops(0))),
+           history_case(rng, nops=5000, scenario=(index_sweep_setup(1), index_sweep_ops(1)))]
+    out += [history_case(rng) for _ in range(n - 4)]
     bench().clear()
     return out
 
@@ -835,9 +1081,7 @@ def flat(items):
 
 def rp(bn, oid, pid, idx):
     A = B()['A']
-    req = A.ReadPropertyRequest(objectIdentifier=oid, propertyIdentifier=pid)
-    if idx is not None:
-        req.propertyArrayIndex = idx
+    req = mk_request(A.ReadPropertyRequest, oid, pid, idx)
     io, _ = bn.exchange(req)
     return io, c_reply(bn, io)
 
@@ -861,6 +1105,11 @@ def check_read_reply(bn, d, rep, before, fail):
     """C: what a ReadProperty must answer, from the state before"""
     C = B()['C']
     oid, pid, idx = tuple(d['oid']), d['pid'], d['idx']
+    if d.get('malformed'):
+        # an index element without data octets is no index at all: the request must be refused, not read as "no index"
+        if rep[0] not in (2, 3, 4):
+            fail('malformed-index-answered', d)
+        return
     robj = bn.dev.localDevice if oid == ('device', 4194303) else bn.find(oid)
     if robj is None:
         if rep != [2, 1, 31]:
@@ -899,6 +1148,11 @@ def check_read_reply(bn, d, rep, before, fail):
         want = val_items(v)
         if want is None or rep != head + flat(want):
             fail('read-wrong-value', d, want=(head + flat(want))[:30] if want is not None else None)
+    elif not issubclass(prop.datatype, C.Array):
+        # an index on a property that is not an array designates nothing, whatever its size: property-is-not-an-array
+        # (invalid-array-index tolerated), never a value
+        if rep not in ([2, 2, 50], [2, 2, 42]):
+            fail('bad-index-wrong-reply', d, not_an_array=True)
 
 
 def embed(rep):
@@ -1013,15 +1267,29 @@ def check_rpm(bn, d, rep, fail):
             return
 
 
-def run_direct_history(hs, failures, stats, stop_at=None, verbose=False):
+def run_direct_history(hs, failures, stats, stop_at=None, verbose=False, scenario=None):
+    """one random history (seed hs), or the scripted history scenario = (name, setup, ops) - every request judged by the
+    same per-request predicate"""
     import random
     C = B()['C']
     hr = random.Random(hs)
     bn = bench()
-    new_history(hr, bn)
-    nops = hr.randint(10, 14)
+    if scenario is None:
+        new_history(hr, bn)
+        nops = hr.randint(10, 14)
+        script = None
+    else:
+        scenario[1](bn)
+        script = scenario[2](bn)
+        nops = 100000
     for k in range(nops):
-        req, q, d = gen_op(hr, bn)
+        if script is not None:
+            try:
+                req, q, d = next(script)
+            except StopIteration:
+                break
+        else:
+            req, q, d = gen_op(hr, bn)
         before = snap(bn)
         io, errs = bn.exchange(req)
         rep = c_reply(bn, io)
@@ -1034,6 +1302,9 @@ def run_direct_history(hs, failures, stats, stop_at=None, verbose=False):
 
         def fail(kind, d=d, **kw):
             f = {'kind': kind, 'history_seed': hs, 'op_index': k, 'op': {x: y for x, y in d.items() if x != 'tags'}}
+            if scenario is not None:
+                del f['history_seed']
+                f['scripted_history'] = scenario[0]
             f.update(kw)
             failures.append(f)
         if rep[0] < 0:
@@ -1051,6 +1322,12 @@ def run_direct_history(hs, failures, stats, stop_at=None, verbose=False):
         oid, pid, idx = tuple(d['oid']), d['pid'], d['idx']
         obj = bn.find(oid)
         onum = oid_num(oid)
+        if d.get('malformed'):
+            if rep[0] not in (2, 3, 4):
+                fail('malformed-index-answered')
+            if after != before:
+                fail('refused-write-changed-state')
+            continue
         if rep != [0]:
             if after != before:
                 fail('refused-write-changed-state')
@@ -1076,6 +1353,14 @@ def run_direct_history(hs, failures, stats, stop_at=None, verbose=False):
         isarr = issubclass(prop.datatype, C.Array)
         n = len(v[2]) if v[0] == 'arr' else None
         right = d['value'] in ('right', 'length')
+        # an index that designates neither the length nor an element (any index on a non-array, beyond the length of an
+        # array) must never be acknowledged - whatever its size or spelling - and is answered with the matching error
+        bad_index = idx is not None and (not isarr or (n is not None and idx > n))
+        if bad_index and rep == [0]:
+            fail('bad-index-acknowledged', elements=n, array=isarr)
+            continue
+        if bad_index and v[0] != 'none' and right and not isarr and rep not in ([2, 2, 50], [2, 2, 42]) and not (not prop.mutable and rep == [2, 2, 40]):
+            fail('bad-index-wrong-reply', not_an_array=True)
         if right and v[0] != 'none' and rep != [0]:
             index_ok = (idx is None) or (isarr and n is not None and 0 <= idx <= n)
             if not prop.mutable and index_ok and rep != [2, 2, 40] and not (d['tags'] == [[0, 0, 0, '']]):
@@ -1611,6 +1896,7 @@ def direct(rng, tier, focus=()):
     canonical_known(failures, stats)
     bitstring_array_direct(failures, stats)
     rpm_index0_direct(failures, stats)
+    index_sweep_direct(failures, stats)
     same_type_pairs_direct(rng, failures, stats)
     unknown_type_direct(failures, stats)
     for _ in range(8 if tier == 'thorough' else 2):
@@ -1637,6 +1923,15 @@ def replay(payload):
     if f and 'cmd_history_seed' in f:
         failures, stats = [], {'evaluations': 0, 'acked': 0, 'replies': __import__('collections').Counter(), 'histories': 0}
         run_cmd_history(f['cmd_history_seed'], failures, stats, verbose=True)
+        print('failures re-observed:')
+        for x in failures:
+            print(' ', x)
+        return
+    if f and 'scripted_history' in f:
+        failures, stats = [], {'evaluations': 0, 'acked': 0, 'replies': __import__('collections').Counter(), 'histories': 0}
+        variant = int(f['scripted_history'].rsplit('-', 1)[1])
+        run_direct_history(0, failures, stats, verbose=True,
+                           scenario=(f['scripted_history'], index_sweep_setup(variant), index_sweep_ops(variant)))
         print('failures re-observed:')
         for x in failures:
             print(' ', x)
